@@ -58,6 +58,9 @@ type chRun struct {
 	intrVal      *intrPayload
 	nativeGotOvf bool
 	intrRaised   bool     // rt.Interrupt() was called by a host function (raiser or an iterator's return())
+	ovfReturned  bool     // an iterator's return() handed back the (wrapped) StackOverflowError of its nested call
+	depthLimit   int      // the call-depth limit in force (math.MaxInt32: none)
+	gotUnc       []bool   // gotUnc[k]: native frame k was handed an uncatchable error by its nested call
 	iterFired    []string // what the host iterators actually did (fault counters)
 
 	// values the host holds
@@ -373,6 +376,7 @@ func (r *chRun) recv(k int, v goja.Value, err error, bare bool) {
 		if r.checkUncatchable(where, err) && errors.As(err, &so) {
 			r.nativeGotOvf = true
 		}
+		r.gotUnc[k] = true
 		return
 	}
 	st := r.m.in[k]
@@ -600,7 +604,7 @@ func (r *chRun) registerRecorders() {
 		k := int(call.Argument(0).ToInteger())
 		e := call.Argument(1)
 		seg := r.segOf[k]
-		if r.frames[k-1].kind == cjJob {
+		if f := r.frames[k-1]; f.kind == cjJob || f.kind == cjIterBuiltin {
 			seg = k
 		}
 		r.ev(seg, "C%d(%s)", k, chClass(e))
@@ -716,7 +720,7 @@ func (r *chRun) prepareValues() {
 	r.iv = make([]chIterVals, r.n+1)
 	for k := 1; k <= r.n; k++ {
 		f := r.frames[k-1]
-		if f.kind != cjHostIter {
+		if !f.usesHostIter() {
 			continue
 		}
 		v := &r.iv[k]
@@ -786,13 +790,36 @@ func (r *chRun) registerIterator(k int) {
 				rt.Interrupt(r.intrVal)
 			}
 		}
-		if f.retAct == retGoError {
+		switch f.retAct {
+		case retGoError:
 			o.Set("return", func(_ goja.Value) (goja.Value, error) {
 				r.ev(seg, "r%d", k)
 				fire("iter-return-go-error")
 				return nil, iv.retPay.goErr
 			})
-		} else {
+		case retWrappedOverflow:
+			// return() calls back into script while the call-depth limit is (as good as) exhausted and hands the error back
+			// the idiomatic way: wrapped with %w. goja re-raises such an error as is, and it must stay uncatchable.
+			o.Set("return", func(_ goja.Value) (goja.Value, error) {
+				r.ev(seg, "r%d", k)
+				nop, ok := goja.AssertFunction(rt.Get("chNop"))
+				if !ok {
+					panic(&chHarnessBug{"chNop missing"})
+				}
+				rt.SetMaxCallStackSize(0)
+				_, err := nop(goja.Undefined())
+				rt.SetMaxCallStackSize(r.depthLimit)
+				if err != nil {
+					if !r.checkUncatchable(fmt.Sprintf("return() of iterator %d", k), err) {
+						return nil, err
+					}
+					fire("iter-return-wrapped-overflow")
+					r.ovfReturned = true
+					return nil, fmt.Errorf("return() of iterator %d: %w", k, err)
+				}
+				return rt.NewObject(), nil
+			})
+		default:
 			o.Set("return", func(goja.FunctionCall) goja.Value {
 				body()
 				return rt.NewObject()
@@ -922,7 +949,7 @@ func chScript(frames []chFrame, entry, payload, flavour int) (string, int) {
 	}
 	n := len(frames)
 	emit(`class MyErr extends Error { constructor(m){ super(m); this.name = "MyErr"; } }`)
-	emit(`function E0(){ this.v = f1(); }`)
+	emit(`function E0(){ this.v = f1(); } function chNop(){}`)
 	emit(`var EO = { get x(){ return f1(); } };`)
 	for k := 1; k <= n; k++ {
 		f := frames[k-1]
@@ -973,6 +1000,17 @@ func chScript(frames []chFrame, entry, payload, flavour int) (string, int) {
 			emit(`function %s(){ return eval("%s()"); }`, fn, nx)
 		case cjClass:
 			emit(`function %s(){ return new (class { constructor(){ this.v = %s(); } })().v; }`, fn, nx)
+		case cjIterBuiltin:
+			switch f.sel % nBuiltinSel {
+			case biArrayFrom:
+				emit(`function %s(){ return Array.from(HI%d(), function(v){ return B(%d, %s()); })[0]; }`, fn, k, k, nx)
+			case biSetAdd:
+				emit(`function %s(){ var r; new (class extends Set { add(v){ r = B(%d, %s()); } })(HI%d()); return r; }`, fn, k, nx, k)
+			case biArrayFromGen:
+				emit(`function %s(){ var ok = 0; function* g(){ try { yield 1; } finally { F(%d, ok); } } return Array.from(g(), function(v){ var r = B(%d, %s()); ok = 1; return r; })[0]; }`, fn, k, k, nx)
+			default:
+				emit(`class PK%d extends Promise { static resolve(v){ B(%d, %s()); return super.resolve(v); } } function %s(){ Promise.all.call(PK%d, HI%d()).catch(function(e){ C(%d, e); }); return "job-%d"; }`, k, k, nx, fn, k, k, k, k)
+			}
 		case cjHostIter:
 			switch f.sel % nIterSel {
 			case iterForOfReturn:
